@@ -21,6 +21,21 @@ func vh_C07_writeDom2_bytes() {
 	vAssert(vHashState(h).Eq(want), "dom2(flag, ctx) = prefix || flag || len(ctx) || ctx")
 }
 
+// the same with contexts of concrete boundary lengths and symbolic bytes (code that copies or indexes the
+// context is then executed exactly; an off-by-one at the 255-byte limit shows here)
+var vDom2Lens = [...]int{0, 1, 2, 254, 255}
+
+func vh_C07_writeDom2_bytes_boundary_lengths() {
+	flag := vCase(0, 1)
+	n := vDom2Lens[vCase(0, len(vDom2Lens)-1)]
+	c := vBytes("ctx", n)
+	h := sha512.New()
+	writeDom2(h, dom2Flag(flag), c)
+	want := vSeqStr("SigEd25519 no Ed25519 collisions").Cat(vSeqByte(byte(flag))).Cat(vSeqByte(byte(n))).Cat(vSeqOf(c))
+	vReach("writeDom2 returned")
+	vAssert(vHashState(h).Eq(want), "dom2(flag, ctx) = prefix || flag || len(ctx) || ctx (boundary lengths)")
+}
+
 func vh_C07_writeDom2_refuses_long() {
 	vPrune(true)
 	c := vBlob("ctx")
